@@ -1,18 +1,74 @@
-"""B-wop (draft)"""
+"""B-wop: written expressions (DESIGN.md 6 C15; C18 for the relocatable operands).
+
+Built on `wcore` (trait `Writer` with the field-log contracts).  Source: write/op.rs, `UnitOffsets` of write/unit.rs.
+
+The per-opcode contracts are GENERATED from the table WOPS below: write::Operation variant -> the opcode the writer
+must choose (incl. the shorter encodings lit0..31 / reg0..31 / breg0..31 / dup / over, DW_OP_* vs DW_OP_GNU_* by version)
+-> operand fields.  WOPS is written from DWARF 5 section 2.5 / 2.6 / 7.7.1 and is CROSS-CHECKED AT BUILD TIME against the
+READ side's table `op.OPS` (vx/batches/op.py, from which the postconditions of `read::Operation::parse` are generated):
+for every case the opcode must be a row of OPS, the operand KINDS (u1/s2/u4/uleb/sleb/addr/word/v2addr/blk) must be the
+reader's for that opcode, the decoded operation kind must be the one named here, and a block's length operand must be
+the length of the block that follows.  A disagreement raises `TableMismatch` (exit 2): "decodes to the same operation"
+holds by construction of the two tables, and each side is verified against its own table.
+
+FUNCTIONS UNDER CONTRACT (all owned by C15)
+  write::op::Operation::size       verified (real body; closure `base_size` gets a contract by insertion only)
+  write::op::Operation::write      verified (real body; closure `entry_offset` likewise)
+  write::op::Expression::size      verified (sum of operation sizes; mutual recursion with EntryValue: `decreases`)
+  write::op::Expression::write     R-EXTBODY: contract ASSUMED (iterator adapters zip/copied, Option::as_deref_mut)
+  write::op::Expression::{op, op_* (35 builders), next_index, set_target}   verified (each pushes the operation it names)
+  write::unit::UnitOffsets::{debug_info_offset, unit_offset}                 verified
+TAGS: see the final report / `python3 vx/run.py wop` clause table.  [C18:expr-address-reloc], [C18:expr-ref-reloc]
+  state that addresses and `.debug_info` references go through the relocatable primitives / fix-ups only.
+
+ASSUMED
+  TRUSTED `write` = Expression::write (see above).  Its contract: Ok ==> every reference resolved, emitted length ==
+     spec_size(), the field log and the fix-up log only grew; requires branch targets in bounds.  (DESIGN 6 C15: Kani
+     group K-EXPRW is planned to check it on the real text with <= 3 operations.)
+  A-MEM  helper preconditions `section length + encoded size <= isize::MAX` and `offsets[i] <= isize::MAX`: byte counts of
+     data that is held in memory (Vec/Box contents), Rust's allocation limit.  Without them the `usize as i64` casts and
+     the `+` of sizes are flagged (they cannot overflow on any real machine).
+  A-IDS  helper precondition `refs_valid`: entry ids in the expression belong to the unit whose `UnitOffsets` is passed
+     (`UnitOffsets::debug_info_offset` debug_asserts the id space and indexes the table without a check).
+  The macro `define_id!` is expanded mechanically (R-MACRO); `BaseId` is the debug-assertions variant (R-CFG true).
+NOT DECIDED
+  * that `Expression::write` hands each operation the running sum of sizes as `offsets` (assumed contract, see above);
+    hence "every branch lands on the intended operation" is decided per operation (displacement == offsets[target] -
+    end of the branch operation, as a 2-byte signed field, out of range => Err) but not for the expression as a whole.
+  * `Operation::Simple(opcode)` writes the single opcode byte it is given: `Expression::op` documents that it must only
+    be used for operand-less opcodes; this is not checked by gimli and not by this batch.
+  * `Operation::Raw` bytes are written as they are.
+  * evaluation equivalence of built vs emitted programs (follows from decode equality, C07).
+  * the length-prefix sites (Exprloc arm, loc.rs write_expression, cfi.rs *Expression arms) are not in this batch.
+FINDING CANDIDATE (documented misuse, not a failing clause): `Expression::op_skip/op_bra` push `Skip(!0)`; when
+  `set_target` is never called, `Operation::write` indexes `offsets[usize::MAX]` and panics instead of returning an error
+  (obligation [C15:branch-target-in-bounds]; native reproducer native/src/bin/f_wop_1.rs).
+"""
+import os
 from lib import *
+from lib import _split_top
 from batches import core, wcore, op as rop
 from batches.wcore import wsource
 
 TRUSTED = list(wcore.TRUSTED) + ['write']
 OWN = ['C15']
+VERUS_ARGS = ['--rlimit', '40']
+# Operation::write: ~70 postconditions x ~100 `?` exits in one VC need rlimit ~340M / 80 s; R-SPLIT over 10 verbatim copies: < 8 s each
+SPLIT_WRITE = int(os.environ.get('WOP_SPLIT', '10'))
+
+
+class TableMismatch(Exception):
+    """the writer's table and the reader's table (op.OPS) disagree -> exit 2 at build time"""
 
 
 def debug_only(it):
+    """R-DERIVE: the mutually recursive Expression/Operation pair keeps only derive(Debug) (Verus rejects the derived
+    Clone/PartialEq of mutually recursive types as a cyclic definition; no extracted function clones or compares them)"""
     return it.custom_re('R-DERIVE', r'#\[derive\([^\]]*\)\]', '#[derive(Debug)]')
 
 
 def define_id(ctx, wmod, name):
-    """R-MACRO: mechanical expansion of `define_id!(name, docs)` (write/mod.rs) - `$name` substituted, doc attribute dropped"""
+    """R-MACRO: mechanical expansion of `define_id!(name, docs)` (write/mod.rs): `$name` substituted, doc attribute dropped"""
     m = wmod.item(r'^macro_rules! define_id \{', label='define_id!')
     t = m.text
     a = t.index('=> {') + 4
@@ -30,7 +86,325 @@ def define_id(ctx, wmod, name):
     return it
 
 
+# ----------------------------------------------------------------------------- the writer's table
+# operand kinds (the reader's vocabulary, op.py): u1 s2 u4 uleb sleb addr word v2addr blk<k>; writer-side refinements:
+#   entry    = uleb operand holding the unit offset of an entry (needs a resolved reference)      -> reader kind uleb
+#   entry4   = u4 operand holding the unit offset of an entry                                     -> reader kind u4
+#   uleb0    = the single byte 0x00 written with write_u8: it IS the ULEB128 encoding of 0        -> reader kind uleb
+#   word/v2addr operands hold a `.debug_info` reference (DebugInfoRef): relocatable Reference or zero placeholder + fix-up
+# values are spec expressions over the bindings of `pat`, `enc` (Encoding), `uo` (unit offsets), `offs`, `pos`.
+V5 = 'enc.version >= 5'
+V4 = 'enc.version < 5'
+
+
+def case(cond, name, operands, opcode=None):
+    return {'cond': cond, 'name': name, 'operands': operands, 'opcode': opcode}
+
+
+def by_version(dw, gnu, operands, extra=None):
+    pre = (extra + ' && ') if extra else ''
+    return [case(pre + V5, dw, operands), case(pre + V4, gnu, operands)]
+
+
+WOPS = [
+    # (tag, pattern, decoded read::Operation kind, cases)
+    ('Address', 'Operation::Address(address)', 'Address', [case('true', 'DW_OP_addr', [('addr', 'address')])]),
+    ('UnsignedConstant', 'Operation::UnsignedConstant(value)', 'UnsignedConstant', [
+        case('value < 32', 'lit', [], opcode='(constants::DW_OP_lit0.0 + value) as nat'),
+        case('value >= 32', 'DW_OP_constu', [('uleb', 'value')])]),
+    ('SignedConstant', 'Operation::SignedConstant(value)', 'SignedConstant', [case('true', 'DW_OP_consts', [('sleb', 'value')])]),
+    ('ConstantType', 'Operation::ConstantType(base, value)', 'TypedLiteral',
+     by_version('DW_OP_const_type', 'DW_OP_GNU_const_type', [('entry', 'base'), ('u1', 'value@.len()'), ('blk1', 'value@')])),
+    ('FrameOffset', 'Operation::FrameOffset(offset)', 'FrameOffset', [case('true', 'DW_OP_fbreg', [('sleb', 'offset')])]),
+    ('RegisterOffset', 'Operation::RegisterOffset(register, offset)', 'RegisterOffset', [
+        case('register.0 < 32', 'breg', [('sleb', 'offset')], opcode='(constants::DW_OP_breg0.0 + register.0) as nat'),
+        case('register.0 >= 32', 'DW_OP_bregx', [('uleb', 'register.0 as u64'), ('sleb', 'offset')])]),
+    ('RegisterType', 'Operation::RegisterType(register, base)', 'RegisterOffset',
+     by_version('DW_OP_regval_type', 'DW_OP_GNU_regval_type', [('uleb', 'register.0 as u64'), ('entry', 'base')])),
+    ('Pick', 'Operation::Pick(index)', 'Pick', [
+        case('index == 0', 'DW_OP_dup', []), case('index == 1', 'DW_OP_over', []),
+        case('index > 1', 'DW_OP_pick', [('u1', 'index')])]),
+    ('Deref', 'Operation::Deref { space }', 'Deref', [case('!space', 'DW_OP_deref', []), case('space', 'DW_OP_xderef', [])]),
+    ('DerefSize', 'Operation::DerefSize { space, size }', 'Deref', [
+        case('!space', 'DW_OP_deref_size', [('u1', 'size')]), case('space', 'DW_OP_xderef_size', [('u1', 'size')])]),
+    ('DerefType', 'Operation::DerefType { space, size, base }', 'Deref',
+     by_version('DW_OP_deref_type', 'DW_OP_GNU_deref_type', [('u1', 'size'), ('entry', 'base')], extra='!space')
+     + [case('space', 'DW_OP_xderef_type', [('u1', 'size'), ('entry', 'base')])]),
+    ('PlusConstant', 'Operation::PlusConstant(value)', 'PlusConstant', [case('true', 'DW_OP_plus_uconst', [('uleb', 'value')])]),
+    ('Skip', 'Operation::Skip(target)', 'Skip', [case('true', 'DW_OP_skip', [('s2', 'branch_disp(offs, target, pos)')])]),
+    ('Branch', 'Operation::Branch(target)', 'Bra', [case('true', 'DW_OP_bra', [('s2', 'branch_disp(offs, target, pos)')])]),
+    ('Call', 'Operation::Call(entry)', 'Call', [case('true', 'DW_OP_call4', [('entry4', 'entry')])]),
+    ('CallRef', 'Operation::CallRef(entry)', 'Call', [case('true', 'DW_OP_call_ref', [('word', 'entry')])]),
+    ('VariableValue', 'Operation::VariableValue(entry)', 'VariableValue', [case('true', 'DW_OP_GNU_variable_value', [('word', 'entry')])]),
+    ('Convert', 'Operation::Convert(Some(base))', 'Convert', by_version('DW_OP_convert', 'DW_OP_GNU_convert', [('entry', 'base')])),
+    ('ConvertGeneric', 'Operation::Convert(None)', 'Convert', by_version('DW_OP_convert', 'DW_OP_GNU_convert', [('uleb0', '0')])),
+    ('Reinterpret', 'Operation::Reinterpret(Some(base))', 'Reinterpret', by_version('DW_OP_reinterpret', 'DW_OP_GNU_reinterpret', [('entry', 'base')])),
+    ('ReinterpretGeneric', 'Operation::Reinterpret(None)', 'Reinterpret', by_version('DW_OP_reinterpret', 'DW_OP_GNU_reinterpret', [('uleb0', '0')])),
+    ('Register', 'Operation::Register(register)', 'Register', [
+        case('register.0 < 32', 'reg', [], opcode='(constants::DW_OP_reg0.0 + register.0) as nat'),
+        case('register.0 >= 32', 'DW_OP_regx', [('uleb', 'register.0 as u64')])]),
+    ('ImplicitValue', 'Operation::ImplicitValue(data)', 'ImplicitValue', [
+        case('true', 'DW_OP_implicit_value', [('uleb', 'data@.len() as u64'), ('blk0', 'data@')])]),
+    ('ImplicitPointer', 'Operation::ImplicitPointer { entry, byte_offset }', 'ImplicitPointer',
+     by_version('DW_OP_implicit_pointer', 'DW_OP_GNU_implicit_pointer', [('v2addr', 'entry'), ('sleb', 'byte_offset')])),
+    ('Piece', 'Operation::Piece { size_in_bytes }', 'Piece', [case('true', 'DW_OP_piece', [('uleb', 'size_in_bytes')])]),
+    ('BitPiece', 'Operation::BitPiece { size_in_bits, bit_offset }', 'Piece', [
+        case('true', 'DW_OP_bit_piece', [('uleb', 'size_in_bits'), ('uleb', 'bit_offset')])]),
+    ('ParameterRef', 'Operation::ParameterRef(entry)', 'ParameterRef', [case('true', 'DW_OP_GNU_parameter_ref', [('entry4', 'entry')])]),
+]
+# special rows (no operand table on the read side): Raw, Simple, EntryValue (nested expression), the three Wasm forms
+# (reader: DW_OP_WASM_location, sub-opcode byte 0/1/2, uleb index - op.py parse_clauses)
+WASM = [('WasmLocal', 0), ('WasmGlobal', 1), ('WasmStack', 2)]
+READER_KIND = {'entry': 'uleb', 'entry4': 'u4', 'uleb0': 'uleb'}
+RANGE_BASE = {'lit': ('DW_OP_lit0', 0x30), 'reg': ('DW_OP_reg0', 0x50), 'breg': ('DW_OP_breg0', 0x70)}
+
+
+def cross_check(ctx):
+    """the writer's table against the reader's (op.OPS); raises TableMismatch"""
+    rows = {}
+    for names, kinds, pat, cons in rop.OPS:
+        for n in names:
+            rows[n] = (kinds, pat, cons)
+    dw = dict(re.findall(r'pub const (\w+): DwOp = DwOp\((0x[0-9a-fA-F]+|\d+)\);', dw_consts(Ctx('x'), 'DwOp')))
+    n_checked = 0
+    for tag, pat, reads, cases in WOPS:
+        for c in cases:
+            name = c['name']
+            if name not in rows:
+                raise TableMismatch(f'{tag}: opcode {name} is not in the reader\'s table')
+            kinds, rpat, cons = rows[name]
+            mine = [READER_KIND.get(k, k) for k, _ in c['operands']]
+            if mine != list(kinds):
+                raise TableMismatch(f'{tag}/{name}: operand kinds {mine} != reader\'s {kinds}')
+            if not re.match(r'Operation::%s\b' % reads, rpat):
+                raise TableMismatch(f'{tag}/{name}: reader decodes `{rpat}`, writer table says {reads}')
+            for i, (k, v) in enumerate(c['operands']):
+                if k.startswith('blk'):
+                    j = int(k[3:])
+                    lk, lv = c['operands'][j]
+                    if norm_ws(lv) not in (norm_ws(v + '.len()'), norm_ws(v + '.len() as u64')):
+                        raise TableMismatch(f'{tag}/{name}: operand {j} (`{lv}`) is not the length of block `{v}`')
+            if name in RANGE_BASE:
+                base, val = RANGE_BASE[name]
+                if int(dw[base], 0) != val or f'constants::{base}.0' not in c['opcode'] or not re.search(r'< 32\b', c['cond']):
+                    raise TableMismatch(f'{tag}/{name}: short form must be {base} + n, n < 32')
+                if f'- {hex(val)}' not in cons:
+                    raise TableMismatch(f'{tag}/{name}: reader constraint `{cons}` does not subtract {hex(val)}')
+            elif name not in dw:
+                raise TableMismatch(f'{tag}/{name}: no such constant')
+            n_checked += 1
+    # the generic-type forms: base type offset 0 (DWARF 5 2.5.1.6 "offset 0 = the generic type")
+    ctx.count('X-TABLE', n_checked)
+    return n_checked
+
+
+def opcode_expr(c):
+    return c['opcode'] or f'constants::{c["name"]}.0 as nat'
+
+
+def operand_field(kind, v):
+    """(field expr, size expr, resolved-condition or None)"""
+    if kind == 'u1':
+        return f'wu(({v}) as nat, 1)', '1', None
+    if kind == 'uleb0':
+        return 'wu(0, 1)', '1', None
+    if kind == 's2':
+        return f'ws({v}, 2)', '2', None
+    if kind == 'uleb':
+        return f'WOp::Uleb({v})', f'uleb_size(({v}) as nat)', None
+    if kind == 'sleb':
+        return f'WOp::Sleb({v})', f'sleb_size(({v}) as int)', None
+    if kind == 'addr':
+        return f'WOp::Address {{ address: {v}, size: enc.address_size }}', 'enc.address_size as nat', None
+    if kind == 'word':
+        return f'ref_field({v}, refsz(enc))', 'refsz(enc) as nat', None
+    if kind == 'v2addr':
+        return f'ref_field({v}, refsz_v2(enc))', 'refsz_v2(enc) as nat', None
+    if kind.startswith('blk'):
+        return f'WOp::Bytes({v})', f'({v}).len()', None
+    if kind == 'entry':
+        return f'WOp::Uleb(eoff(uo, {v})->Ok_0)', f'esz(uo, {v})', f'eresolved(uo, {v})'
+    if kind == 'entry4':
+        return f'wu(eoff(uo, {v})->Ok_0 as nat, 4)', '4', f'eresolved(uo, {v})'
+    raise TableMismatch('operand kind ' + kind)
+
+
+def gen_op_size():
+    """spec fn op_size: 1 opcode byte + the operand sizes of the chosen encoding (total: unresolved references count 1)"""
+    arms = ['        Operation::Raw(bytecode) => bytecode@.len(),', '        Operation::Simple(_) => 1,']
+    for tag, pat, reads, cases in WOPS:
+        body = ''
+        for c in cases:
+            sz = ' + '.join(['1nat'] + [operand_field(k, v)[1] for k, v in c['operands']])
+            body += f'if {c["cond"]} {{ {sz} }} else '
+        arms.append(f'        {pat} => {body}{{ 0 }},')
+    arms.append('        Operation::EntryValue(expression) => { let l = expr_size_upto(expression, expression.operations@.len(), enc, uo); 1 + uleb_size(l) + l },')
+    for v, _ in WASM:
+        arms.append(f'        Operation::{v}(index) => 2 + uleb_size(index as nat),')
+    return ('''
+/// GENERATED from WOPS (vx/batches/wop.py): the number of bytes the DWARF encoding chosen for `op` occupies
+pub(crate) closed spec fn op_size(op: Operation, enc: Encoding, uo: Option<&UnitOffsets>) -> nat
+    decreases op, 0nat
+{
+    match op {
+''' + '\n'.join(arms) + '''
+    }
+}
+''')
+
+
+def gen_ref_preds():
+    """op_refs_valid (A-IDS), op_resolved (write needs every entry offset), op_sized (size needs the ULEB ones)"""
+    defs = [('op_refs_valid', 'eref_ok', ('entry', 'entry4'), 'every entry id mentioned belongs to the unit being written (helper precondition A-IDS)'),
+            ('op_resolved', 'eresolved', ('entry', 'entry4'), 'every entry reference can be resolved NOW (its unit offset is known): otherwise write must fail'),
+            ('op_sized', 'eresolved', ('entry',), 'the entry references whose value determines the size (ULEB operands) are resolved: otherwise size must fail')]
+    out = ''
+    for fn, pred, kinds, doc in defs:
+        arms = []
+        for tag, pat, reads, cases in WOPS:
+            per_case = [[v for k, v in c['operands'] if k in kinds] for c in cases]
+            if any(pc != per_case[0] for pc in per_case):
+                raise TableMismatch(f'{tag}: entry operands differ between encodings')
+            if per_case[0]:
+                arms.append(f'        {pat} => ' + ' && '.join(f'{pred}(uo, {v})' for v in per_case[0]) + ',')
+        arms.append(f'        Operation::EntryValue(e) => forall|i: int| 0 <= i < e.operations@.len() ==> {fn}(#[trigger] e.operations@[i], uo),')
+        arms.append('        _ => true,')
+        out += (f'/// GENERATED from WOPS: {doc}\npub(crate) closed spec fn {fn}(op: Operation, uo: Option<&UnitOffsets>) -> bool\n'
+                '    decreases op, 0nat\n{\n    match op {\n' + '\n'.join(arms) + '\n    }\n}\n')
+    return out
+
+
+W0 = 'old(w).wv()'
+W1 = 'final(w).wv()'
+LET = f'({{ let enc = encoding; let uo = unit_offsets; let offs = offsets@; let pos = {W0}.len; '
+
+
+def field_clauses():
+    out = []
+    out.append(f'[C15:fields-raw] res is Ok ==> (*self matches Operation::Raw(bytecode) ==> emitted({W0}, {W1}, WOp::Bytes(bytecode@)))')
+    out.append(f'[C15:fields-simple] res is Ok ==> (*self matches Operation::Simple(opcode) ==> emitted({W0}, {W1}, wu(opcode.0 as nat, 1)))')
+    for tag, pat, reads, cases in WOPS:
+        for c in cases:
+            fs = [f'wu({opcode_expr(c)}, 1)']
+            conds = []
+            extra = ''
+            for k, v in c['operands']:
+                f, _, r = operand_field(k, v)
+                fs.append(f)
+                if r:
+                    conds.append(r)
+                if k in ('word', 'v2addr'):
+                    sz = 'refsz(enc)' if k == 'word' else 'refsz_v2(enc)'
+                    extra = (f' && ({v} is Entry ==> refs is Some) && (refs matches Some(r) ==> final(r)@ == ref_fixups(r@, {v}, pos + 1, {sz}))')
+            n = len(fs)
+            em = f'emitted{n if n > 1 else ""}({W0}, {W1}, {", ".join(fs)})'
+            tags = f'[C15:fields-{c["name"].replace("DW_OP_", "")}]'
+            if any(k == 'addr' for k, _ in c['operands']):
+                tags += '[C18:expr-address-reloc]'
+            if any(k in ('word', 'v2addr') for k, _ in c['operands']):
+                tags += '[C18:expr-ref-reloc]'
+            body = ' && '.join(conds + [em]) + extra
+            out.append(f'{tags} res is Ok ==> {LET}(*self matches {pat} ==> (({c["cond"]}) ==> ({body}))) }})')
+    for v, k in WASM:
+        out.append(f'[C15:fields-WASM_location-{k}] res is Ok ==> (*self matches Operation::{v}(index) ==> '
+                   f'emitted2({W0}, {W1}, WOp::Bytes(seq![constants::DW_OP_WASM_location.0, {k}u8]), WOp::Uleb(index as u64)))')
+    # nested expression: opcode by version, ULEB length == the nested expression's predicted size, then exactly that many bytes
+    for cond, name in [(V5, 'DW_OP_entry_value'), (V4, 'DW_OP_GNU_entry_value')]:
+        out.append(f'[C15:fields-{name.replace("DW_OP_", "")}] res is Ok ==> {LET}(*self matches Operation::EntryValue(expression) ==> (({cond}) ==> '
+                   f'({{ let l = expression.spec_size(enc, uo); prefix2({W0}, {W1}, wu(constants::{name}.0 as nat, 1), WOp::Uleb(l as u64)) '
+                   f'&& {W1}.len == pos + 1 + uleb_size(l) + l }}))) }})')
+    return out
+
+
+def refless_pats():
+    """patterns of the variants that never touch the fix-up log"""
+    ps = ['Operation::Raw(_)', 'Operation::Simple(_)']
+    for tag, pat, reads, cases in WOPS:
+        if not any(k in ('word', 'v2addr') for c in cases for k, _ in c['operands']):
+            ps.append(re.sub(r'\b(?<!::)([a-z_]+)\b(?!\s*[:({])', '_', pat) if False else pat)
+    return ps
+
+
+BUILDERS = [
+    # (builder, documented opcode(s), pushed operation, WOPS tag)
+    ('op_addr', ['DW_OP_addr'], 'Operation::Address(address)', 'Address'),
+    ('op_constu', ['DW_OP_constu'], 'Operation::UnsignedConstant(value)', 'UnsignedConstant'),
+    ('op_consts', ['DW_OP_consts'], 'Operation::SignedConstant(value)', 'SignedConstant'),
+    ('op_const_type', ['DW_OP_const_type', 'DW_OP_GNU_const_type'], 'Operation::ConstantType(base, value)', 'ConstantType'),
+    ('op_fbreg', ['DW_OP_fbreg'], 'Operation::FrameOffset(offset)', 'FrameOffset'),
+    ('op_breg', ['DW_OP_bregx'], 'Operation::RegisterOffset(register, offset)', 'RegisterOffset'),
+    ('op_regval_type', ['DW_OP_regval_type', 'DW_OP_GNU_regval_type'], 'Operation::RegisterType(register, base)', 'RegisterType'),
+    ('op_pick', ['DW_OP_pick'], 'Operation::Pick(index)', 'Pick'),
+    ('op_deref', ['DW_OP_deref'], 'Operation::Deref { space: false }', 'Deref'),
+    ('op_xderef', ['DW_OP_xderef'], 'Operation::Deref { space: true }', 'Deref'),
+    ('op_deref_size', ['DW_OP_deref_size'], 'Operation::DerefSize { size, space: false }', 'DerefSize'),
+    ('op_xderef_size', ['DW_OP_xderef_size'], 'Operation::DerefSize { size, space: true }', 'DerefSize'),
+    ('op_deref_type', ['DW_OP_deref_type', 'DW_OP_GNU_deref_type'], 'Operation::DerefType { size, base, space: false }', 'DerefType'),
+    ('op_xderef_type', ['DW_OP_xderef_type'], 'Operation::DerefType { size, base, space: true }', 'DerefType'),
+    ('op_plus_uconst', ['DW_OP_plus_uconst'], 'Operation::PlusConstant(value)', 'PlusConstant'),
+    ('op_call', ['DW_OP_call4'], 'Operation::Call(entry)', 'Call'),
+    ('op_call_ref', ['DW_OP_call_ref'], 'Operation::CallRef(entry)', 'CallRef'),
+    ('op_variable_value', ['DW_OP_GNU_variable_value'], 'Operation::VariableValue(entry)', 'VariableValue'),
+    ('op_convert', ['DW_OP_convert', 'DW_OP_GNU_convert'], 'Operation::Convert(base)', 'Convert'),
+    ('op_reinterpret', ['DW_OP_reinterpret', 'DW_OP_GNU_reinterpret'], 'Operation::Reinterpret(base)', 'Reinterpret'),
+    ('op_entry_value', None, 'Operation::EntryValue(expression)', None),
+    ('op_reg', ['DW_OP_regx'], 'Operation::Register(register)', 'Register'),
+    ('op_implicit_value', ['DW_OP_implicit_value'], 'Operation::ImplicitValue(data)', 'ImplicitValue'),
+    ('op_implicit_pointer', ['DW_OP_implicit_pointer', 'DW_OP_GNU_implicit_pointer'], 'Operation::ImplicitPointer { entry, byte_offset }', 'ImplicitPointer'),
+    ('op_piece', ['DW_OP_piece'], 'Operation::Piece { size_in_bytes }', 'Piece'),
+    ('op_bit_piece', ['DW_OP_bit_piece'], 'Operation::BitPiece { size_in_bits, bit_offset }', 'BitPiece'),
+    ('op_gnu_parameter_ref', ['DW_OP_GNU_parameter_ref'], 'Operation::ParameterRef(entry)', 'ParameterRef'),
+    ('op_wasm_local', None, 'Operation::WasmLocal(index)', None),
+    ('op_wasm_global', None, 'Operation::WasmGlobal(index)', None),
+    ('op_wasm_stack', None, 'Operation::WasmStack(index)', None),
+    ('op', None, 'Operation::Simple(opcode)', None),
+]
+
+
+def check_builders():
+    """the opcode a builder is documented to add must be one of the encodings WOPS gives the operation it pushes"""
+    names = {tag: set(c['name'] for c in cases) for tag, pat, reads, cases in WOPS}
+    for b, docs, pushed, tag in BUILDERS:
+        if tag is None:
+            continue
+        for d in docs:
+            if d not in names[tag]:
+                raise TableMismatch(f'{b}: documented opcode {d} is not an encoding of {tag}')
+        if not pushed.startswith('Operation::' + ('Deref' if tag.startswith('Deref') else tag.replace('Generic', ''))):
+            raise TableMismatch(f'{b}: pushes {pushed}, table row {tag}')
+
+
+UO_GHOST = '''
+    /// the id belongs to this unit: same id space, index inside the table (ghost accessors for the private fields)
+    pub closed spec fn has(&self, entry: UnitEntryId) -> bool {
+        entry.base_id == self.base_id && entry.index < self.entries@.len()
+    }
+    /// every recorded entry offset lies at or after the unit's own offset (0 = not yet known)
+    pub closed spec fn wf(&self) -> bool {
+        forall|i: int| 0 <= i < self.entries@.len() ==> (#[trigger] self.entries@[i]).0 == 0 || self.entries@[i].0 >= self.unit.0
+    }
+    /// unit-relative offset of an entry whose section offset is already known
+    pub closed spec fn off(&self, entry: UnitEntryId) -> Option<u64> {
+        let o = self.entries@[entry.index as int].0;
+        if o == 0 { None } else { Some((o - self.unit.0) as u64) }
+    }
+'''
+
+# helper preconditions (from the call sites; A-IDS, A-MEM in the header)
+REQ_REFS = 'op_refs_valid(*self, unit_offsets)'
+
+
+def closure_contract(it, name, ret, ens, nth):
+    """give the closure `let <name> = |entry| match unit_offsets { .. };` a contract, by INSERTION only:
+    `|entry: UnitEntryId| -> (r: T) requires .. ensures .. { match .. }`"""
+    it.insert_after(f'let {name} = |entry| ', f'-> (r: {ret}) requires eref_ok(unit_offsets, entry) ensures r == {ens} {{ ')
+    it.insert_after(f'let {name} = |entry', ': UnitEntryId')
+    it.insert_after('None => Err(Error::UnsupportedCfiExpressionReference),\n        }', ' }', nth=nth)
+
+
 def populate(ctx, sk):
+    cross_check(ctx)
+    check_builders()
     wmod = wsource('write/mod.rs', ctx)
     wu = wsource('write/unit.rs', ctx)
     wo = Source('write/op.rs', ctx)
@@ -39,6 +413,7 @@ def populate(ctx, sk):
     sk.add('write', wmod.item(r'^struct BaseId\(usize\);', label='BaseId').clean())
     wcore.ensure_structural(sk, 'write', 'BaseId')
 
+    # ---- write::unit: ids, UnitOffsets, DebugInfoRef, DebugInfoFixup
     sk.module('write::unit', '''use crate::common::DebugInfoOffset;
 use crate::write::BaseId;
 use crate::wspec::*;''')
@@ -47,10 +422,20 @@ use crate::wspec::*;''')
     sk.add('write::unit', wu.item(r'^pub\(crate\) struct UnitOffsets \{', label='UnitOffsets').clean())
     uo = wu.item(r'^impl UnitOffsets \{', label='UnitOffsets(impl)').clean()
     uo.own(OWN)
+    uo.insert_members(UO_GHOST)
+    uo.splice('debug_info_offset', ret='res', requires=['self.has(entry)'], ensures=[
+        'res == (if self.entries@[entry.index as int].0 == 0 { None } else { Some(self.entries@[entry.index as int]) })'])
+    # DWARF 5 2.5.1.x: entry operands are offsets from the first byte of the unit header
+    uo.insert_after('(offset.0 - self.unit.0) as u64', ' }')
+    uo.insert_after('.map(|offset| ', '-> (r: u64) requires offset.0 >= self.unit.0 ensures r == (offset.0 - self.unit.0) as u64 { ')
+    uo.insert_after('.map(|offset', ': DebugInfoOffset')
+    uo.splice('unit_offset', ret='res', requires=['self.wf()', 'self.has(entry)'],
+              ensures=['[C15:ref-unit-relative] res == self.off(entry)'], canary=True)
     sk.add('write::unit', uo)
     sk.add('write::unit', wu.item(r'^pub enum DebugInfoRef \{', label='DebugInfoRef').clean())
     sk.add('write::unit', wu.item(r'^pub\(crate\) struct DebugInfoFixup \{', label='DebugInfoFixup').clean())
 
+    # ---- write::op
     sk.module('write::op', '''use crate::common::{Encoding, Register};
 use crate::constants::{self, DwOp};
 use crate::leb128::write::{sleb128_size, uleb128_size};
@@ -60,18 +445,99 @@ use crate::write::{
 use crate::vspec::*;
 use crate::wspec::*;''')
     sk.add('write::op', debug_only(wo.item(r'^pub struct Expression \{', label='Expression')).clean())
-    sk.add('write::op', debug_only(wo.item(r'^enum Operation \{', label='Operation')).clean())
-    ex = wo.item(r'^impl Expression \{', label='Expression(impl)')
-    ex.drop(['raw', 'as_raw', 'new'])
+    # R-VIS: `enum Operation` is private to write::op; Verus requires every constructor named in the contract of a
+    # pub(crate) fn (Operation::write) to be visible crate-wide.  Visibility only: no effect on any function body.
+    sk.add('write::op', debug_only(wo.item(r'^enum Operation \{', label='Operation')).custom('R-VIS', 'enum Operation {', 'pub(crate) enum Operation {').clean())
+    sk.add('write::op', core.rd('specs/wop.rs'), label='wop-spec')
+    sk.add('write::op', gen_op_size() + gen_ref_preds(), label='wop-spec(generated)')
+
+    ex = wo.item(r'^impl Expression \{', label='Expression')
+    ex.drop(['raw', 'as_raw', 'new'])    # Vec<u8> raw bytecode constructors / Default (not carriers)
     ex.extbody(['write'])
     # R-ORPAT: Verus rejects an or-pattern with `ref mut` bindings; the arm is duplicated per alternative (same body)
     ex.custom('R-ORPAT', 'Operation::Skip(ref mut target) | Operation::Branch(ref mut target) => {',
               'Operation::Skip(ref mut target) => {\n                *target = new_target;\n            }\n            Operation::Branch(ref mut target) => {')
     ex.clean()
     ex.own(OWN)
+    E_ARGS = 'encoding, unit_offsets'
+    ex.insert_after('for operation in ', 'it: ')
+    ex.splice('size', ret='res', nth=0,
+              requires=['self.refs_valid(unit_offsets)', f'self.spec_size({E_ARGS}) <= isize::MAX'],
+              ensures=[f'[C15:size-sum] res matches Ok(n) ==> n as nat == self.spec_size({E_ARGS})',
+                       '[C15:size-total] res is Ok <==> self.sized(unit_offsets)',
+                       '[C15:ref-error-kind] res matches Err(e) ==> e == ref_error(unit_offsets)'],
+              loops={0: f'invariant size as nat == expr_size_upto(*self, it.index@ as nat, {E_ARGS}), '
+                        f'self.refs_valid(unit_offsets), self.spec_size({E_ARGS}) <= isize::MAX, '
+                        'forall|j: int| 0 <= j < it.index@ ==> op_sized(#[trigger] self.operations@[j], unit_offsets), '
+                        '0 <= it.index@ <= self.operations@.len()'},
+              before=[('size += operation.size(encoding, unit_offsets)?;',
+                       f'proof {{ lemma_upto_step(*self, it.index@ as nat, {E_ARGS}); }}')],
+              decreases='self, 1nat', canary=True)
+    ex.splice('write', ret='res',
+              requires=['self.refs_valid(unit_offsets)', 'self.targets_ok()',
+                        f'old(w).wv().len + self.spec_size({E_ARGS}) <= isize::MAX'],
+              ensures=[f'[C15:size-eq-len] res is Ok ==> {W1}.len == {W0}.len + self.spec_size({E_ARGS})',
+                       '[C15:ref-unresolved-err] res is Ok ==> self.resolved(unit_offsets)',
+                       f'[C15:frame] grew({W0}, {W1})',
+                       '[C15:fixups-frame] refs matches Some(r) ==> fix_prefix(r@, final(r)@)'])
+    ghost = ''
+    for b, docs, pushed, tag in BUILDERS:
+        m = re.search(r'pub fn %s\(&mut self(?:, ([^)]*))?\)' % b, ex.text)
+        if not m:
+            raise Lost(f'builder {b}: signature')
+        params = (m.group(1) or '').strip().rstrip(',')
+        names = ', '.join(x.split(':')[0].strip() for x in _split_top(params))
+        # pub fns of a pub type cannot name the crate-private `Operation` in their contracts: one closed predicate each
+        ghost += (f'    /// `new` is `self` followed by the operation `{b}` is documented to add\n'
+                  f'    pub closed spec fn pushed_{b}(&self, new: Expression{", " + params if params else ""}) -> bool {{\n'
+                  f'        new.operations@ == self.operations@.push({pushed})\n    }}\n')
+        ens = [f'[C15:builder-{b}] old(self).pushed_{b}(*final(self){", " + names if names else ""})']
+        if b == 'op_entry_value':
+            ens.append('[C15:builder-keeps-targets] old(self).targets_ok() && expression.targets_ok() ==> final(self).targets_ok()')
+        else:
+            ens.append('[C15:builder-keeps-targets] old(self).targets_ok() ==> final(self).targets_ok()')
+        ex.splice(b, ensures=ens)
+    for b, cond in [('op_skip', 'false'), ('op_bra', 'true')]:
+        ex.splice(b, ret='res', ensures=[
+            f'[C15:builder-{b}] res == old(self).count() && old(self).pushed_branch(*final(self), {cond})'])
+    ex.splice('next_index', ret='res', ensures=['[C15:builder-next-index] res == self.count()'])
+    ex.splice('set_target', requires=[
+        'old(self).is_branch(operation)', 'new_target <= old(self).count()', 'operation != new_target'],
+        ensures=['[C15:set-target] old(self).retargeted(*final(self), operation, new_target)'],
+        canary=True)
+    ex.insert_members(ghost)
     sk.add('write::op', ex)
-    im = wo.item(r'^impl Operation \{', label='Operation(impl)').clean()
+
+    im = wo.item(r'^impl Operation \{', label='Operation').clean()
     im.own(OWN)
+    closure_contract(im, 'base_size', 'Result<usize>', 'esize_res(unit_offsets, entry)', 0)
+    closure_contract(im, 'entry_offset', 'Result<u64>', 'eoff(unit_offsets, entry)', 1)
+    im.splice('size', ret='res',
+              requires=[REQ_REFS, f'op_size(*self, {E_ARGS}) <= isize::MAX'],
+              ensures=[f'[C15:size-value] res matches Ok(n) ==> n as nat == op_size(*self, {E_ARGS})',
+                       '[C15:size-total] res is Ok <==> op_sized(*self, unit_offsets)',
+                       '[C15:ref-error-kind] res matches Err(e) ==> e == ref_error(unit_offsets)'],
+              decreases='self, 0nat', canary=True)
+    im.splice('write', ret='res',
+              requires=[REQ_REFS,
+                        f'old(w).wv().len + op_size(*self, {E_ARGS}) <= isize::MAX',
+                        'forall|i: int| 0 <= i < offsets@.len() ==> #[trigger] offsets@[i] <= isize::MAX',
+                        '[C15:branch-target-in-bounds] (*self matches Operation::Skip(t) ==> t < offsets@.len()) && (*self matches Operation::Branch(t) ==> t < offsets@.len())',
+                        '*self matches Operation::EntryValue(e) ==> e.targets_ok()'],
+              ensures=[f'[C15:size-eq-len] res is Ok ==> {W1}.len == {W0}.len + op_size(*self, {E_ARGS})',
+                       '[C15:ref-unresolved-err] res is Ok ==> op_resolved(*self, unit_offsets)',
+                       f'[C15:branch-range-err] {LET}(*self matches Operation::Skip(target) ==> !sfits(branch_disp(offs, target, pos), 2) ==> res is Err) '
+                       f'&& (*self matches Operation::Branch(target) ==> !sfits(branch_disp(offs, target, pos), 2) ==> res is Err) }})',
+                       '[C15:const-type-len-err] *self matches Operation::ConstantType(_, value) ==> value@.len() > 255 ==> res is Err',
+                       '[C15:call-offset-err] (*self matches Operation::Call(entry) ==> (eoff(unit_offsets, entry) matches Ok(v) ==> v > 0xffff_ffff ==> res is Err)) '
+                       '&& (*self matches Operation::ParameterRef(entry) ==> (eoff(unit_offsets, entry) matches Ok(v) ==> v > 0xffff_ffff ==> res is Err))',
+                       '[C15:ref-needs-fixups-err][C18:expr-ref-reloc] refs is None ==> ((*self matches Operation::CallRef(DebugInfoRef::Entry(_, _)) ==> res is Err) '
+                       '&& (*self matches Operation::VariableValue(DebugInfoRef::Entry(_, _)) ==> res is Err) '
+                       '&& (*self matches Operation::ImplicitPointer { entry: DebugInfoRef::Entry(_, _), .. } ==> res is Err))',
+                       '[C15:fixups-only-for-refs] !(*self is CallRef || *self is VariableValue || *self is ImplicitPointer || *self is EntryValue) ==> (refs matches Some(r) ==> final(r)@ == r@)',
+                       '[C15:fixups-frame] refs matches Some(r) ==> fix_prefix(r@, final(r)@)',
+                       f'[C15:frame] grew({W0}, {W1})'] + field_clauses(),
+              canary=True, split=SPLIT_WRITE)
     sk.add('write::op', im)
     return sk
 
